@@ -56,6 +56,9 @@ CHECKS = {
  'C17': dict(cat='exploration', tech='history exploration by choice variables over the real compiler and ScriptJob/Machine objects; second-run traces compared with fresh runs by z3 on symbolic literals (symx)',
    text='Compile histories: every ordered pair and seeded triples/quadruples from a pool of 13 valid and 17 invalid texts (rejected inside a loop, routine, matrix block, if; texts relying on names other texts define) on one Parser and one ScriptJob give the verdict, messages and listing of a fresh compiler. Executions: a ScriptJob with symbolic literals run after a first execution that was complete or stopped before VM step k (choice variable) produces the trace of a fresh complete run for all values and leaves the compiled program, including time-pattern denotations, unchanged; every ordered pair of 7 jobs in one process (job 1 complete or stopped at step k; recording and production output bindings): job 2 behaves as when run alone.',
    note='History length <= 4; stop positions every 3rd-5th VM step up to 40 (quick) / every step (thorough). Device state is reset between executions. Clock hand-over between runs is C09.', ref='4/C17'),
+ 'C20': dict(cat='exploration', tech='bounded exploration of manifests and request histories as choice variables (symx, depth-first in seeded order) through the real WebApp/FrontEnd/JobControl code',
+   text='Manifests of 1..2 (thorough 3) entries (file name, optional path, optional title, colours, background flag from pools with HTML metacharacters, path separators, .ls variants, duplicates) and histories of up to 4 (5) requests (listed path, unlisted path, stop/<path>, stop-current, stop-all, status, capture, index) interleaved with job completions: jobs are created only for listed paths, from the listed file, queued or spawned as marked, never twice while reported running; every manifest string in a page context equals html.escape(original) exactly once; default path/title derivation; stop routes reach exactly their targets and stop-all empties the queue; status and capture render.',
+   note='flask replaced by a recording stub (no Jinja/routing), ScriptJob by a recording job, job threads completed on demand. Strings come from pools (no symbolic strings); histories beyond the path cap are not explored.', ref='4/C20'),
 }
 PENDING = {
 }
